@@ -126,7 +126,7 @@ def fprints_dict_from_mol(
     sdf_file : str
         SDF file path.
     """
-    if mol.HasProp("_Name"):
+    if mol.HasProp("_Name") and mol.GetProp("_Name"):
         name = mol.GetProp("_Name")
         log_name = name
     else:
